@@ -25,7 +25,7 @@ import (
 // RSync is the frozen convergence allowance (rounds led by a correct predicted leader that may still fail after GST
 // while rounds, phases and timers of the correct replicas re-align). Calibrated once on the unchanged tree, see
 // check.json "assumptions" and the calibration note in the evidence. Raising it later is a finding to investigate.
-const RSync = 3
+const RSync = 1
 
 // phase timeouts: a generated base times a generated per-phase factor (ratio between phases <= 2, the shape of the
 // production defaults 1.5s..4s)
@@ -80,12 +80,12 @@ func TestC15Liveness(t *testing.T) {
 		tm := func(l string) int { return base * rapid.SampledFrom(timeoutFactors).Draw(rt, l) / 2 }
 		cfg.ElectionMS, cfg.ElectionVoteMS, cfg.ProposeMS, cfg.ProposeVoteMS = tm("tEl"), tm("tElV"), tm("tPr"), tm("tPrV")
 		cfg.PrecommitMS, cfg.PrecommitVoteMS, cfg.CommitMS = tm("tPc"), tm("tPcV"), tm("tCm")
-		cut := rapid.IntRange(1, 260).Draw(rt, "gstStep")
-		res := bftscen.RunOn(rt, bftscen.Options{CutSteps: cut, NoFinish: true}, cfg, mode, g1, g2)
+		cut := rapid.IntRange(1, 400).Draw(rt, "gstStep")
+		res := bftscen.RunOn(rt, bftscen.Options{CutSteps: cut, NoFinish: true, ExtraPartition: true, Families: "F1,F2,F3,F4,F4,F4,F5,F5,F6"}, cfg, mode, g1, g2)
 		s := res.S
 		defer s.Close()
 		for _, l := range res.Classes {
-			if strings.HasPrefix(l, "fam=") || strings.HasPrefix(l, "committee=") {
+			if strings.HasPrefix(l, "fam=") || strings.HasPrefix(l, "committee=") || strings.HasPrefix(l, "seg:") || strings.HasPrefix(l, "byzlead:") {
 				c.Class(l)
 			}
 		}
@@ -174,7 +174,11 @@ func TestC15Liveness(t *testing.T) {
 				d := s.Descriptor()
 				k := strings.Index(d, "{GST")
 				fmt.Println("DUMP", d[max(0, k-1500):min(len(d), k+9000)])
+				fmt.Println("GATEFAILS", s.GateFails)
 			}
+		}
+		if calibrate && !sr.Aligned && m > allow {
+			fmt.Printf("OVERCAP spread m=%d cap=%d %s\n", m, sr.CapRounds, res.Header())
 		}
 		if calibrate && sr.Aligned && m >= 2 {
 			fmt.Printf("SLOW aligned m=%d elapsed=%d byzLed=%d byz=%s delta=%v %s\n", m, sr.Elapsed, sr.ByzLed, byzMode, delta, res.Header())
